@@ -391,6 +391,7 @@ type c20Case struct {
 	Topo  topoSpec `json:"topo"`
 	Reads int      `json:"reads_per_master"`
 	Mask  uint64   `json:"mask"`
+	Shape string   `json:"shape,omitempty"` // force one traffic shape (default: chosen by mask and master)
 }
 
 func c20Gen(t *rapid.T) c20Case {
@@ -443,23 +444,49 @@ func c20Exec(c *c20Case) []Discrepancy {
 		if len(slots) == 0 {
 			continue
 		}
+		// several traffic shapes, each judged on its own: the spread must not depend on what else the client sends
+		shapes := []string{"reads-with-occasional-writes", "alternating-read-write", "alternating-read-ping", "two-reads-one-write", "three-reads-one-ping", "reads-in-two-segments"}
+		shape := shapes[(int(c.Mask>>8)+mi)%len(shapes)]
+		if c.Shape != "" {
+			shape = c.Shape
+		}
 		var reqs []Req
 		for i := 0; i < c.Reads; i++ {
 			s := slots[(i+int(c.Mask%7))%len(slots)]
 			name := c20ReadCmds[(i+int(c.Mask%5))%len(c20ReadCmds)]
 			reqs = append(reqs, Req{Name: Bin(name), Args: []Bin{Bin(refmodel.KeyInSlot(s, fmt.Sprintf("rd%dm%d", i, mi)))}})
-			if i%10 == 0 { // interleaved writes
-				reqs = append(reqs, Req{Name: Bin("set"), Args: []Bin{Bin(refmodel.KeyInSlot(s, fmt.Sprintf("wr%dm%d", i, mi))), Bin("v")}})
+			wr := Req{Name: Bin("set"), Args: []Bin{Bin(refmodel.KeyInSlot(s, fmt.Sprintf("wr%dm%d", i, mi))), Bin("v")}}
+			switch shape {
+			case "reads-with-occasional-writes", "reads-in-two-segments":
+				if i%10 == 0 {
+					reqs = append(reqs, wr)
+				}
+			case "alternating-read-write":
+				reqs = append(reqs, wr)
+			case "alternating-read-ping":
+				reqs = append(reqs, Req{Name: Bin("ping")})
+			case "two-reads-one-write":
+				if i%2 == 1 {
+					reqs = append(reqs, wr)
+				}
+			case "three-reads-one-ping":
+				if i%3 == 2 {
+					reqs = append(reqs, Req{Name: Bin("ping")})
+				}
 			}
 		}
-		// spread over a few client connections
-		spec := PipeSpec{}
-		for off := 0; off < len(reqs); off += 110 {
-			end := off + 110
-			if end > len(reqs) {
-				end = len(reqs)
+		evidence.For("C20").Add("shape-"+shape, 1)
+		// one client connection per shape (ids of one connection's requests are consecutive inside the proxy)
+		spec := PipeSpec{Clients: []ClientSpec{{Reqs: reqs}}}
+		if shape == "reads-in-two-segments" {
+			// every request arrives in two TCP segments
+			var cuts []int
+			for i := range reqs {
+				n := len(reqs[i].Encode())
+				cuts = append(cuts, n/2, n-n/2)
 			}
-			spec.Clients = append(spec.Clients, ClientSpec{Reqs: reqs[off:end]})
+			spec.Clients[0].Cuts = cuts
+			spec.Clients[0].PauseUs = 150
 		}
 		ds = pipeRunCompare("C20", f, &cfg, &spec, 0)
 		if len(ds) > 0 {
@@ -470,7 +497,7 @@ func c20Exec(c *c20Case) []Discrepancy {
 		for _, lr := range f.Cluster.Log() {
 			if lr.Name == "set" {
 				if lr.Node != own.Master {
-					ds = append(ds, disc("C20/write-not-at-master", "a SET for master %d arrived at node %d", own.Master, lr.Node))
+					ds = append(ds, disc("C20/write-not-at-master", "a SET for master %d arrived at node %d (traffic shape %s)", own.Master, lr.Node, shape))
 					return ds
 				}
 				continue
@@ -479,7 +506,7 @@ func c20Exec(c *c20Case) []Discrepancy {
 		}
 		for _, r := range own.Replicas {
 			if got[r] == 0 {
-				ds = append(ds, disc("C20/replica-never-used", "master node %d has healthy replicas %v; %d reads were distributed as %v: replica node %d served none", own.Master, own.Replicas, c.Reads, got, r))
+				ds = append(ds, disc("C20/replica-never-used", "master node %d has healthy replicas %v; %d reads (traffic shape %s) were distributed as %v: replica node %d served none", own.Master, own.Replicas, c.Reads, shape, got, r))
 				return ds
 			}
 		}
